@@ -13,7 +13,7 @@
  *    literally a subset of the concrete ones (same macros), so they are proved
  *    by the concrete enforce units; what the abstract view does NOT check is
  *    that the chunk-shape precondition of chunk_ingest_data holds at the call
- *    (covered by the bounded unit chunks_parse_b8 and by the WF clauses of
+ *    (covered by the bounded unit chunks_parse_b3 and by the WF clauses of
  *    chunk_ingest_newline / chunk_ingest_data; listed under "assumes").
  */
 #ifndef VP_HTTPCHUNK_CONTRACTS_H
